@@ -521,10 +521,11 @@ type observed struct {
 	emptyPutCommitted bool // a body-less closing PUT committed an empty session
 	ambiguous0        bool // an upload status GET was answered while nothing had been accepted: "Range: 0-0" cannot say so
 	mirrorUploads     int  // upload requests that reached the mirror
+	backoffEvents     int  // answers that count against the client's per-host backoff budget
 	stall             int  // longest run of consecutive PATCH answers that accepted nothing
 }
 
-func observe(entries []*rm.Entry) observed {
+func observe(entries []*rm.Entry, refuseMono bool) observed {
 	var o observed
 	accepted := 0
 	stall := 0
@@ -540,6 +541,15 @@ func observe(entries []*rm.Entry) observed {
 		}
 		if e.Fault == "cap" {
 			o.capHit = true
+		}
+		// answers of a conforming exchange that the client counts against its per-host backoff budget: injected
+		// failures, framing errors, and the refusal of a monolithic PUT. Rejections that only a misbehaving client
+		// provokes (digest mismatch at the closing PUT, a chunk below the enforced minimum, ...) are no excuse.
+		switch {
+		case injected || e.Fault == "framing":
+			o.backoffEvents++
+		case refuseMono && e.Class == "upload-put" && e.Status == 400 && len(e.Body) > 0 && accepted == 0:
+			o.backoffEvents++
 		}
 		if strings.HasPrefix(e.Class, "upload-") && e.Host == mirrorHost {
 			o.mirrorUploads++
@@ -849,8 +859,9 @@ func setup(c Case) (*env, error) {
 		e.enforce = c.Feat.EnforceMin && c.Feat.ChunkMin > 0 && len(cf.accept) == 0
 		if e.enforce {
 			prevLen := map[string]int{}
+			prevCR := map[string]string{}
 			min := c.Feat.ChunkMin
-			intercepts = append(intercepts, func(en *rm.Entry, _ *http.Request) *rm.Resp {
+			intercepts = append(intercepts, func(en *rm.Entry, req *http.Request) *rm.Resp {
 				if en.Class != "upload-patch" {
 					return nil
 				}
@@ -858,6 +869,11 @@ func setup(c Case) (*env, error) {
 				if i := strings.IndexByte(sid, '/'); i >= 0 {
 					sid = sid[:i]
 				}
+				cr := req.Header.Get("Content-Range")
+				if pc, ok := prevCR[sid]; ok && pc == cr {
+					return nil // the same chunk again (retry after a lost response): left to the model's continuity check
+				}
+				prevCR[sid] = cr
 				if pl, ok := prevLen[sid]; ok && pl < min {
 					en.Note = fmt.Sprintf("rejected: previous chunk of %d bytes is below the announced minimum %d", pl, min)
 					return &rm.Resp{Status: 400, Header: http.Header{"Content-Type": {"application/json"}}, TruncateAt: -1,
@@ -1113,7 +1129,7 @@ func (e *env) onePut(idx int, seed uint64, length int, ev *evid.Collector) putOu
 	if e.m != nil {
 		entries = e.m.Entries()[start:]
 	}
-	o := observe(entries)
+	o := observe(entries, cf.isReg && c.Feat.RefuseMono)
 	if os.Getenv("VERIF_C05_DUMP") != "" {
 		fmt.Fprintf(os.Stderr, "case=%+v\nput %d err=%v\n%s", c, idx, res.err, dumpLog(entries))
 	}
@@ -1210,10 +1226,7 @@ func (e *env) onePut(idx int, seed uint64, length int, ev *evid.Collector) putOu
 	sp := e.sigPrefix
 
 	// injected failures and refusals add up in the client's per-host backoff state
-	e.backoffs += o.faultsHit
-	if cf.isReg && c.Feat.RefuseMono && f.tryPut && len(f.data) > 0 {
-		e.backoffs++
-	}
+	e.backoffs += o.backoffEvents
 
 	prevErr := e.prevErr
 	if res.err != nil {
@@ -1323,8 +1336,7 @@ func (e *env) onePut(idx int, seed uint64, length int, ev *evid.Collector) putOu
 		ev.Class("exempt:applied-response-lost")
 		return out
 	}
-	refused := cf.isReg && c.Feat.RefuseMono && f.tryPut && len(f.data) > 0
-	if e.backoffs >= cf.retryLimit || (prevErr && (o.faultsHit > 0 || refused)) {
+	if e.backoffs >= cf.retryLimit || (prevErr && o.backoffEvents > 0) {
 		// after an earlier upload of this client failed, the per-host backoff count it left behind is unknown
 		// (body read errors and framing errors never reach the model's log)
 		ev.Class("exempt:beyond-retry-limit")
